@@ -377,7 +377,7 @@ Proof.
   assert (Hne : v <> []) by (destruct v; [discriminate|discriminate]).
   unfold hdr_line. cbn [fst snd]. change (s2b ": ") with [58; 32].
   replace (((c :: k') ++ [58; 32] ++ v ++ crlf) ++ rest) with ((c :: (k' ++ 58 :: 32 :: v)) ++ crlf ++ rest)
-    by (repeat (rewrite <- app_assoc || progress cbn [app]); reflexivity).
+    by (repeat first [rewrite <- app_assoc | progress cbn [app]]; reflexivity).
   assert (Hnl : ~ In 10 (c :: (k' ++ 58 :: 32 :: v))).
   { intros [H|H]; [apply Kl; now left|]. apply in_app_or in H as [H|[H|[H|H]]]; try discriminate; [apply Kl; now right|auto]. }
   assert (Hends : not_lwsp_ends (c :: (k' ++ 58 :: 32 :: v)) = true).
@@ -419,5 +419,71 @@ Proof.
     + rewrite IH; auto. cbn in Hf. lia.
     + destruct hs as [|kv hs']; [reflexivity|]. cbn [flat_map]. rewrite <- app_assoc.
       cbn [forallb] in H2. apply andb_true_iff in H2 as [H2 _]. now apply hdr_line_start.
+Qed.
+
+(* ---- Content-Disposition: what escapeQuotes writes, consumeValue reads back ---- *)
+Lemma take_quoted_esc n r : forallb is_value_char n = true -> take_quoted (esc n ++ 34 :: r) = Some (n, r).
+Proof.
+  induction n as [|c n IH]; intros Hn; [reflexivity|].
+  cbn [forallb] in Hn. apply andb_true_iff in Hn as [Hc Hn]. specialize (IH Hn).
+  unfold esc in *. cbn [flat_map]. unfold esc_c at 1.
+  destruct (N.eqb_spec c 92) as [->|H92].
+  - cbn [app take_quoted N.eqb Pos.eqb]. replace (is_tspecial 92) with true by reflexivity. now rewrite IH.
+  - destruct (N.eqb_spec c 34) as [->|H34].
+    + cbn [app take_quoted N.eqb Pos.eqb]. replace (is_tspecial 34) with true by reflexivity. now rewrite IH.
+    + cbn [app take_quoted]. apply N.eqb_neq in H92, H34. rewrite H34, H92.
+      assert ((c =? 13) || (c =? 10) = false) as Hcr.
+      { destruct (N.eqb_spec c 13) as [->|]; [vm_compute in Hc; discriminate|].
+        destruct (N.eqb_spec c 10) as [->|]; [vm_compute in Hc; discriminate|]. reflexivity. }
+      rewrite Hcr. now rewrite IH.
+Qed.
+
+Definition k_name : bytes := [110; 97; 109; 101].
+Definition k_filename : bytes := [102; 105; 108; 101; 110; 97; 109; 101].
+Definition k_formdata : bytes := [102; 111; 114; 109; 45; 100; 97; 116; 97].
+
+Lemma pp_name fuel n tl : forallb is_value_char n = true ->
+  parse_params (S fuel) (59 :: 32 :: 110 :: 97 :: 109 :: 101 :: 61 :: 34 :: esc n ++ 34 :: tl) [] =
+  parse_params fuel tl [(k_name, n)].
+Proof.
+  intros Hn. cbn -[esc parse_params]. cbn [parse_params]. cbn -[esc parse_params take_quoted].
+  cbn [skip_sp N.eqb Pos.eqb orb andb N.leb N.compare Pos.compare Pos.compare_cont take_token is_token_char].
+  rewrite take_quoted_esc by exact Hn. reflexivity.
+Qed.
+
+Lemma pp_filename fuel n x tl : forallb is_value_char x = true ->
+  parse_params (S fuel) (59 :: 32 :: 102 :: 105 :: 108 :: 101 :: 110 :: 97 :: 109 :: 101 :: 61 :: 34 :: esc x ++ 34 :: tl) [(k_name, n)] =
+  parse_params fuel tl [(k_name, n); (k_filename, x)].
+Proof.
+  intros Hx. cbn -[esc parse_params]. cbn [parse_params]. cbn -[esc parse_params take_quoted].
+  cbn [skip_sp N.eqb Pos.eqb orb andb N.leb N.compare Pos.compare Pos.compare_cont take_token is_token_char].
+  rewrite take_quoted_esc by exact Hx. reflexivity.
+Qed.
+
+Lemma parse_disp_field n : forallb is_value_char n = true ->
+  parse_disposition (disp_field n) = Some (k_formdata, [(k_name, n)]).
+Proof.
+  intros Hn. unfold parse_disposition, disp_field.
+  change (s2b "form-data; name=""") with [102; 111; 114; 109; 45; 100; 97; 116; 97; 59; 32; 110; 97; 109; 101; 61; 34].
+  cbn [app cut_semi N.eqb Pos.eqb].
+  replace (lower_s (trim_lwsp [102; 111; 114; 109; 45; 100; 97; 116; 97])) with k_formdata by reflexivity.
+  replace (forallb is_token_char k_formdata) with true by reflexivity. cbn [k_formdata negb orb].
+  rewrite (pp_name _ n []) by exact Hn. reflexivity.
+Qed.
+
+Lemma parse_disp_file n x : forallb is_value_char n = true -> forallb is_value_char x = true ->
+  parse_disposition (disp_file n x) = Some (k_formdata, [(k_name, n); (k_filename, x)]).
+Proof.
+  intros Hn Hx. unfold parse_disposition, disp_file.
+  change (s2b "form-data; name=""") with [102; 111; 114; 109; 45; 100; 97; 116; 97; 59; 32; 110; 97; 109; 101; 61; 34].
+  change (s2b """; filename=""") with [34; 59; 32; 102; 105; 108; 101; 110; 97; 109; 101; 61; 34].
+  cbn [app cut_semi N.eqb Pos.eqb].
+  replace (lower_s (trim_lwsp [102; 111; 114; 109; 45; 100; 97; 116; 97])) with k_formdata by reflexivity.
+  replace (forallb is_token_char k_formdata) with true by reflexivity. cbn [k_formdata negb orb].
+  replace (esc n ++ 34 :: 59 :: 32 :: 102 :: 105 :: 108 :: 101 :: 110 :: 97 :: 109 :: 101 :: 61 :: 34 :: esc x ++ [34])
+    with (esc n ++ 34 :: (59 :: 32 :: 102 :: 105 :: 108 :: 101 :: 110 :: 97 :: 109 :: 101 :: 61 :: 34 :: esc x ++ 34 :: [])) by reflexivity.
+  cbn [length]. rewrite pp_name by exact Hn.
+  rewrite app_length. cbn [length]. rewrite Nat.add_succ_r. rewrite pp_filename by exact Hx.
+  rewrite Nat.add_succ_r. reflexivity.
 Qed.
 End Codec.
